@@ -24,8 +24,8 @@ CaseDirs == << <<OLD1, NEW1>>, <<OLD1, NEW1>>, <<OLD1, NEW1>>, <<OLD1, NEW1>>, <
 Characterisation(c)          == c.ok <=> (c.cl = "none")
 RoundTripCharacterisation(c) == c.rok <=> (c.cl # "percent-sequence-decoded")
 OtherSchemesUnchanged(c)     == c.kind = "http" => (c.m = c.v /\ c.t = c.v)
-\* without "%", ":", "#", "?", space and non-ASCII the function is exactly the prefix replacement
-Plain == \A i \in 1..Len(r) : r[i] \notin {"%", ":", " ", "#", "?", UMark}
+\* without "%", ":", "#", "?", "+", space and non-ASCII the function is exactly the prefix replacement
+Plain == \A i \in 1..Len(r) : r[i] \notin {"%", ":", " ", "#", "?", "+", UMark}
 PlainNamesExact(c)           == Plain => (c.m = c.id /\ c.t = c.v)
 
 Json1(c) == [k |-> c.kind, s |-> Flat(c.v), m |-> Flat(c.m), i |-> Flat(c.id), t |-> Flat(c.t),
